@@ -222,7 +222,7 @@ SerNode(n, ws) ==
 C(s) == s    \* readability: a character sequence
 WordsFull  == {<<>>, <<"a">>, <<"b">>, <<"1">>, <<"0", "1">>, <<"1", ".", "0">>, <<"+", "1">>, <<"2">>, <<SP>>, <<NL>>}
 WordsSmall == {<<>>, <<"a">>, <<"1">>, <<"0", "1">>, <<SP>>}
-WordsNum   == {<<>>, <<"a">>, <<"1">>, <<"0", "1">>, <<"1", ".", "0">>, <<"+", "1">>, <<"2">>, <<"2", ".", "0">>, <<".", "5">>, <<"0", ".", "5", "0">>, <<SP>>}
+WordsNum   == {<<>>, <<"a">>, <<"1">>, <<"0", "1">>, <<"1", ".", "0">>, <<"+", "1">>, <<"2">>, <<".", "5">>, <<"0", ".", "5", "0">>}
 WordsTiny  == {<<"a">>, <<"1">>, <<"0", "1">>}
 Words == CASE WordSet = "full" -> WordsFull [] WordSet = "small" -> WordsSmall [] WordSet = "tiny" -> WordsTiny [] OTHER -> WordsNum
 Names == CASE WordSet = "small" -> {<<"1">>, <<"x">>} [] WordSet = "tiny" -> {} [] OTHER -> {<<"1">>, <<"2">>, <<"x">>}
